@@ -68,9 +68,7 @@ class JaggedArray:
                     except:  # noqa: E722
                         # numpy might fail if it's jagged
                         flattenedList = self.flatten(arr)
-                        shapes.append(
-                            len(flattenedList),
-                        )
+                        shapes.append((len(flattenedList),))
                         offset += len(flattenedList)
                         flattenedArray.extend(flattenedList)
             elif isinstance(arr, (int, float, np.number, np.bool_)):
